@@ -4,6 +4,9 @@
 #include "tbfglobal.hpp"
 
 #include "tbfmemorydim.hpp"
+#ifdef TBFMM_VERIF
+#include "utils/tbfverifhooks.hpp"
+#endif
 
 template <class DataType_T, long int MemoryAlignementBytes = TbfDefaultMemoryAlignement>
 class TbfMemoryVector{
@@ -48,6 +51,9 @@ public:
                 __device__ __host__
         #endif
         DataType& getItem(const long int inIdx){
+#ifdef TBFMM_VERIF
+            TbfVerif::CheckViewerBounds("TbfMemoryVector::Viewer", inIdx, nbItems, 0, 1);
+#endif
             return ptrToData[inIdx];
         }
         #ifdef __NVCC__
@@ -91,6 +97,9 @@ public:
                 __device__ __host__
         #endif
         const DataType& getItem(const long int inIdx){
+#ifdef TBFMM_VERIF
+            TbfVerif::CheckViewerBounds("TbfMemoryVector::ViewerConst", inIdx, nbItems, 0, 1);
+#endif
             return ptrToData[inIdx];
         }
 
